@@ -11,6 +11,7 @@ Exact stream: inputs on a dyadic lattice chosen so that every float operation of
 floats, compared under the per-cell bound of `tol_of` (derived from the forward-error theorems) with u the unit roundoff of the coarser of
 the position and grid dtypes.
 """
+from vcommon import pure
 import json
 import math
 import warnings
@@ -257,8 +258,8 @@ def call_scatter(impl, case, entry, pos, off=None, grid0='case', weights='case')
         w = weights
     buf, dens = guarded(case, grid0)
     off = case['off'] if off is None else off
-    fn = {'tsc_jit': impl.tsc._tsc_scatter, 'tsc_py': impl.tsc._tsc_scatter.py_func,
-          'cic_jit': impl.cic.cic_serial, 'cic_py': impl.cic.cic_serial.py_func}[entry]
+    fn = {'tsc_jit': impl.tsc._tsc_scatter, 'tsc_py': pure(impl.tsc._tsc_scatter),
+          'cic_jit': impl.cic.cic_serial, 'cic_py': pure(impl.cic.cic_serial)}[entry]
     try:
         with np.errstate(all='ignore'):
             if entry.startswith('tsc'):
